@@ -180,27 +180,36 @@ def createFile (v nParent : Nat) (name : Bytes) : Prog (RC × Blk) := do
 
 def isDirEmpty (d : Blk) : Bool := (List.range 72).all fun i => d.hash i = 0
 
-/-- `adfGetFileBlocks` + `adfFreeFileBlocks`: free every data and extension block of a file -/
-def freeFileBlocksExt (v : Nat) : (fuel nSect : Nat) → Prog Unit
-  | 0, nSect => if nSect = 0 then return () else fault (.outOfFuel "adfGetFileBlocks.extension")
-  | fuel+1, nSect => do
-    if nSect = 0 then return ()
-    let (_, ext) ← readFileExtBlock v nSect          -- read errors are ignored by the C code
-    for i in List.range (min (ext.w F_highSeq) 72) do
-      setBlockFree v (ext.w (F_table + 71 - i))
-    setBlockFree v nSect
-    freeFileBlocksExt v fuel (ext.w F_extension)
+/-- the data-block numbers listed in one block (header or extension): slots 71, 70, … for `highSeq` entries, at most 72,
+    and no more than still fit into the list the file size allows (`room`) -/
+def listedBlocks (b : Blk) (room : Nat) : List Nat :=
+  let hs := toInt32 (b.w F_highSeq)
+  let k := if hs < 0 then 0 else min hs.toNat 72
+  ((List.range k).map fun i => b.w (F_table + 71 - i)).take room
 
-def freeFileBlocks (v : Nat) (entry : Blk) : Prog RC := do
+/-- the extension-chain part of `adfGetFileBlocks`: at most `nbExt` extension blocks are followed, a read error ends
+    the call -/
+def getFileBlocksExt (v nbData nbExt : Nat) : (fuel nSect : Nat) → (data exts : List Nat) → Prog (RC × List Nat × List Nat)
+  | 0, _, data, exts => return (rcOK, data, exts)
+  | fuel+1, nSect, data, exts => do
+    if nSect = 0 ∨ exts.length ≥ nbExt then return (rcOK, data, exts)
+    let (rc, ext) ← readFileExtBlock v nSect
+    if rc ≠ rcOK then return (rc, data, exts)
+    getFileBlocksExt v nbData nbExt fuel (ext.w F_extension) (data ++ listedBlocks ext (nbData - data.length)) (exts ++ [nSect])
+
+/-- `adfGetFileBlocks`: (rc, data blocks, extension blocks) -/
+def getFileBlocks (v : Nat) (entry : Blk) : Prog (RC × List Nat × List Nat) := do
   let vc ← getVolCfg v
-  -- the C code sizes its arrays from byteSize and fills them from highSeq: a mismatch overflows the heap
   let (nData, nExt, _) := fileRealSize (entry.w F_byteSize) vc.datablockSize
-  let hs := entry.w F_highSeq
-  if hs > 72 ∨ hs > nData then fault (.oob "adfGetFileBlocks.data")
-  for i in List.range hs do
-    setBlockFree v (entry.w (F_table + 71 - i))
-  let _ := nExt
-  freeFileBlocksExt v (volFuel vc) (entry.w F_extension)
+  let data := listedBlocks entry nData
+  getFileBlocksExt v nData nExt (nExt + 1) (entry.w F_extension) data []
+
+/-- `adfFreeFileBlocks`: free every data and extension block of a file -/
+def freeFileBlocks (v : Nat) (entry : Blk) : Prog RC := do
+  let (rc, data, exts) ← getFileBlocks v entry
+  if rc ≠ rcOK then return rc
+  for b in data do setBlockFree v b
+  for b in exts do setBlockFree v b
   return rcOK
 
 /-- `adfRemoveEntry(vol, pSect, name)` -/
